@@ -283,6 +283,58 @@ fn prepare_params<X: Sx>(ctx: &Ctx, idx: u64) {
     }
 }
 
+/// the low-level validation step of BlindSign with caller-chosen parameters: a commitment made by suite X under its
+/// blind interface validates under exactly one (expander, generator set, api id) triple - its own. Every other
+/// combination, including api ids for which an internal step fails (too long for a DST), must be refused.
+fn validate_grid<X: Sx, Y: Sx>(ctx: &Ctx, idx: u64, m: usize) {
+    let mut r = ctx.rng("c11v", idx);
+    let cm = gen_messages(&mut r, m, idx as usize);
+    let arg: Option<&[Vec<u8>]> = if m == 0 && idx % 2 == 1 { None } else { Some(&cm) };
+    let Some((com, _bf)) = ctx.call("commit", "grid", None, || Com::<X>::commit(arg)).value else {
+        ctx.inconclusive("C11: honest commit failed (C05's business)");
+        return;
+    };
+    let cwp = com.to_bytes();
+    let own_api = X::ID.blind_api_id();
+    let mut ids: Vec<(String, Option<Vec<u8>>)> = api_ids(X::ID);
+    ids.push(("none".into(), None));
+    for n in [200usize, 251, 252, 255, 256, 300, 70000] {
+        let mut a = own_api.clone();
+        a.resize(n, b'x');
+        ids.push((format!("long-{n}"), Some(a)));
+    }
+    let gen_ids: Vec<(String, Option<Vec<u8>>)> = ids.iter().filter(|(n, _)| !n.starts_with("long-") || n == "long-252").cloned().collect();
+    let own_gen_api = [b"BLIND_".as_slice(), &own_api].concat();
+    let mut accepted_own = 0;
+    for (gn, gapi) in &gen_ids {
+        for extra in [0usize, 2] {
+            let gx = Generators::create::<X::CS>(m + 1 + extra, gapi.as_deref());
+            let gy = Generators::create::<Y::CS>(m + 1 + extra, gapi.as_deref());
+            for (an, aapi) in &ids {
+                for (sn, is_x) in [(name::<X>(), true), (name::<Y>(), false)] {
+                    let case = format!("{}-commitment/M{m}/validate[{sn}, gens={gn}+{extra}, api={an}]", name::<X>());
+                    let o = if is_x {
+                        ctx.call("deserialize_and_validate_commit", &case, Some(64), || Com::<X>::deserialize_and_validate_commit(Some(&cwp), &gx, aapi.as_deref()))
+                    } else {
+                        ctx.call("deserialize_and_validate_commit", &case, Some(64), || Com::<Y>::deserialize_and_validate_commit(Some(&cwp), &gy, aapi.as_deref()))
+                    };
+                    let own = is_x && gapi.as_deref() == Some(&own_gen_api[..]) && aapi.as_deref() == Some(&own_api[..]);
+                    ctx.distinct(&format!("{}/M{m}/{sn}/{gn}/{an}", name::<X>()));
+                    if own {
+                        accepted_own += 1;
+                        if !o.outcome.is_ok() {
+                            ctx.violation("C11:own-commitment-refused-by-validation", json!({"case":case,"outcome":o.outcome.short()}));
+                        }
+                    } else if o.outcome.is_ok() {
+                        ctx.violation("C11:foreign-artefact-accepted/commitment-validation", json!({"case":case,"commitment":hx_full(&cwp)}));
+                    }
+                }
+            }
+        }
+    }
+    ctx.count("validation_grid_own_triples_accepted", accepted_own);
+}
+
 pub fn scenarios(ctx: &Ctx) -> Vec<Scenario> {
     let mut v = Vec::new();
     let lm: &[(usize, usize)] = ctx.t(&[(0, 0), (1, 0), (2, 1), (3, 3), (5, 2)][..], &[(0, 0), (1, 0), (0, 1), (2, 1), (3, 3), (5, 2), (8, 4), (4, 8)][..]);
@@ -291,6 +343,12 @@ pub fn scenarios(ctx: &Ctx) -> Vec<Scenario> {
             let i = rep * 20 + k as u64;
             v.push(scenario(format!("replay/sha->shake/L{l}M{m}"), move |c| replays::<Sha, Shake>(c, i, l, m)));
             v.push(scenario(format!("replay/shake->sha/L{l}M{m}"), move |c| replays::<Shake, Sha>(c, i + 10, l, m)));
+        }
+    }
+    for m in [0usize, 1, 3] {
+        for rep in 0..ctx.t(1u64, 3u64) {
+            v.push(scenario(format!("validate-grid/sha/M{m}"), move |c| validate_grid::<Sha, Shake>(c, 9000 + rep * 2 + m as u64 * 10, m)));
+            v.push(scenario(format!("validate-grid/shake/M{m}"), move |c| validate_grid::<Shake, Sha>(c, 9001 + rep * 2 + m as u64 * 10, m)));
         }
     }
     v.push(scenario("prepare_parameters/sha", |c| prepare_params::<Sha>(c, 7000)));
